@@ -6,7 +6,7 @@ CONSTANTS
   Dev = {}
   LENS = {1, 171, 355}
   HDRS = {"pts", "none"}
-  AFS = {"none", "raipcr", "big", "bigrai"}
+  AFS = {"none", "raipcr", "big", "bigrai", "huge"}
   BIGS = {FALSE, TRUE}
   PKTS = {"null", "toobig"}
 INVARIANTS C04_Aligned C04_PUSI C17_TablesFirst C17_Period C17_AutoPid
